@@ -60,7 +60,9 @@ class TracepointConfigService:
         self._task_handler = None
         self._listeners: List[ConfigUpdateListener] = []
         self._update_lock = threading.Lock()
-        self._custom_lock = threading.Lock()
+        # re-entrant: the thread inside add_custom / remove_custom can get here again (a signal handler or a finalizer of
+        # the application that uses another handle) and must not wait for itself
+        self._custom_lock = threading.RLock()
 
     def reinstall(self):
         """
@@ -209,9 +211,11 @@ class TracepointConfigService:
         if config is None:
             raise ValueError("Cannot interpret tracepoint arguments: %s" % args)
         with self._custom_lock:
-            # a new list: the one an update task is reading is never changed under it
-            self._custom = self._custom + [config]
+            # a new list: the one an update task is reading is never changed under it. Built from the registrations as
+            # they are now, not by adding to the list as it was a moment ago: the thread can have been here in between
+            # (see the lock) and have removed one
             self._custom_ids[registration_id] = config
+            self._custom = list(self._custom_ids.values())
         self.__trigger_update(None, None)
         return registration_id
 
@@ -227,5 +231,5 @@ class TracepointConfigService:
             registered = self._custom_ids.pop(_id, None)
             if registered is None:
                 return
-            self._custom = [cfg for cfg in self._custom if cfg is not registered]
+            self._custom = list(self._custom_ids.values())
         self.__trigger_update(None, None)
